@@ -34,6 +34,8 @@ RULE = ("stacks of 1-3 sibling scopes (parentless nodes / Workflow children / ch
         "one failing node (every node of the would-be executed set in the thorough tier), already-failed nodes / "
         "parents; HISTORIES: the same pull 2-3 times with unchanged inputs and uncached observers wired to the target "
         "and to the enclosing macros (by hand, or by automation after a run of the Workflow root); "
+        "WARM histories: the target is pulled / the Workflow root run first, THEN an executor is put on a closure node "
+        "and/or an upstream input changes, then the observed pull (refused as for cold nodes, nothing left running); "
         "parents, permuted labels; EVERY node of the target scope as target, with and without parent scopes. "
         "Non-trivial = the closure has at least two nodes or the pull is refused; distinct = distinct case JSON")
 TRUSTED = ["the iteration order of Python sets (closure) is not predicted: connection lists are compared as sorted "
@@ -157,14 +159,43 @@ def build(case):
                 parent.automate_execution = bool(L["automate"])
                 if L["pfailed"]:
                     parent.failed = True
-        for i in L["exe"]:
-            from concurrent.futures import ThreadPoolExecutor
-            nodes[i].executor = (ThreadPoolExecutor, (), {})
+        if not case.get("warm"):        # a warm history gets its executors AFTER the warm-up (apply_late)
+            _set_executors(L, nodes)
         for i in L["failed"]:
             nodes[i].failed = True
         for i in L.get("nocache", []):
             nodes[i].use_cache = False      # an observer: really executes whenever it is triggered
     return scopes
+
+
+def _set_executors(L, nodes):
+    from concurrent.futures import ThreadPoolExecutor
+    for i in L["exe"]:
+        nodes[i].executor = (ThreadPoolExecutor, (), {})
+
+
+TOUCH = 11
+
+
+def apply_late(case, scopes):
+    """what a warm history does between the warm-up and the observed pull: executors, changed inputs"""
+    for lv, L in enumerate(case["levels"]):
+        _, nodes = scopes[lv]
+        _set_executors(L, nodes)
+        for i in L.get("touch", []):
+            nodes[i].inputs.z.value = TOUCH
+
+
+def _drain(scopes):
+    """never let a submitted run leak into the next case (only broken trees ever submit one)"""
+    for _, nodes in scopes:
+        for nd in nodes:
+            f = nd.future
+            if f is not None and not f.done():
+                try:
+                    f.result(timeout=5)
+                except BaseException:
+                    pass
 
 
 def snapshot(case, scopes, ordered):
@@ -212,7 +243,8 @@ def snapshot(case, scopes, ordered):
         for who, comp in (("parent", parent), ("other", _BUILD["others"].get(lv))):
             if comp is not None:
                 keys += [[who, str(k), str(ch.label)] for k, ch in comp.children.items()]
-        out.append([rows, start, auto, pf, sorted(keys)])
+        running = [bool(n.running) for n in nodes] + [bool(parent.running) if parent is not None else False]
+        out.append([rows, start, auto, pf, sorted(keys), running])
     return out
 
 
@@ -245,17 +277,25 @@ def _run_once(case, seconds):
     BADTAGS = {f"{lv}.{i}" for lv, L in enumerate(case["levels"]) for i in L["bad"]}
     scopes = build(case)
     ordered = bool(case.get("ordered"))
-    sort_start = bool(case.get("prerun"))
+    sort_start = bool(case.get("prerun")) or case.get("warm") == "root"
     target = scopes[0][1][case["target"]]
     pulls = []
     old_handler = signal.signal(signal.SIGALRM, _alarm)
     try:
-        if case.get("prerun"):
+        if case.get("prerun") or case.get("warm") == "root":
             signal.alarm(seconds)
             try:
                 scopes[-1][0].run()
             finally:
                 signal.alarm(0)
+        elif case.get("warm") == "pull":
+            signal.alarm(seconds)
+            try:
+                target.pull(run_parent_trees_too=bool(case["parents"]))
+            finally:
+                signal.alarm(0)
+        if case.get("warm"):
+            apply_late(case, scopes)
         for _ in range(max(1, int(case.get("repeat", 1)))):
             LOG.clear()
             before = _snap(case, scopes, ordered, sort_start)
@@ -277,6 +317,7 @@ def _run_once(case, seconds):
             log = [[int(t.split(".")[0]), int(t.split(".")[1])] for t in LOG]
             after = _snap(case, scopes, ordered, sort_start)
             pulls.append([res, log, after, before, ret])
+            _drain(scopes)
             if res == "BudgetError":
                 break
     except BudgetError:
@@ -353,7 +394,7 @@ def modelled(case):
 
 
 def model_term(case):
-    if not modelled(case) or case.get("prerun"):
+    if not modelled(case) or case.get("prerun") or case.get("warm"):
         return None         # a history after a root run starts from cached nodes: oracle only
     # of a history (repeat > 1) the model covers the FIRST pull; the later ones (cache hits) are oracle only
     levels = case["levels"]
@@ -451,7 +492,8 @@ def expectation(case):
 
 def reference_value(case):
     """plain-Python value of the target when everything the property wants has run (fresh graph)"""
-    pulled = set(range(len(case["levels"]))) if case.get("prerun") else set(pulled_levels(case))
+    pulled = (set(range(len(case["levels"]))) if (case.get("prerun") or case.get("warm") == "root")
+              else set(pulled_levels(case)))
     memo = {}
 
     def first(L, lv, v, ch):
@@ -469,7 +511,7 @@ def reference_value(case):
         for ch in range(3):
             conns = first(L, lv, v, ch)
             args.append(val(lv, conns[0]) if conns else 0)
-        z = 0
+        z = TOUCH if v in L.get("touch", []) else 0
         if v == 0 and L["par"] == "macro" and lv + 1 < len(case["levels"]) and (lv + 1) in pulled:
             U = case["levels"][lv + 1]
             conns = []
@@ -499,6 +541,8 @@ def _restored(case, before, after):
             return f"starting-nodes-not-restored: level {lv}: {b[1]} before, {a[1]} after"
         if b[4] != a[4]:
             return f"children-keys-changed: level {lv}: {b[4]} before, {a[4]} after"
+        if any(a[5]):
+            return f"left-running: level {lv}: running flags {a[5]} (nodes, then the parent) after the pull"
         for who, key, lab in a[4]:
             if key != lab:
                 return (f"label-not-restored: level {lv}: the {who} composite lists a child under {key!r} "
@@ -509,7 +553,7 @@ def _restored(case, before, after):
 def oracle(case, obs):
     if not (isinstance(obs, list) and len(obs) in (5, 6)):
         return f"driver: unexpected observation {obs!r}"[:300]
-    v = _oracle_pull(case, obs[:5], first=not case.get("prerun"), which=1)
+    v = _oracle_pull(case, obs[:5], first=not (case.get("prerun") or case.get("warm")), which=1)
     if v:
         return v
     for n, o in enumerate(obs[5] if len(obs) == 6 else []):
@@ -872,6 +916,45 @@ def history_variants(rng, levels, target, parents):
     return out
 
 
+def warm_variants(rng, levels, target, parents):
+    """the graph has been pulled (or its Workflow root run) before, so caches are warm; THEN an executor is put on a
+    node of the closure and/or an upstream input changes; then the observed pull: refused exactly as for cold
+    nodes (nothing executed, nothing left running, everything as before) resp. the right value"""
+    out = []
+
+    def cp(**kw):
+        c = {"levels": json.loads(json.dumps(levels)), "target": target, "parents": parents}
+        c.update(kw)
+        return c
+    kinds = ["pull"] + (["root"] if levels[-1]["par"] == "wf" else [])
+    single = len(levels) == 1
+    for with_exe in (True, False):
+        if not with_exe and rng.random() < 0.5:
+            continue
+        c = cp(warm=rng.choice(kinds), repeat=rng.choice([1, 1, 2]))
+        if c["warm"] == "root":
+            for L in c["levels"]:
+                L["automate"] = True
+                if L["par"] == "wf":
+                    L["sig"], L["start"] = [], []
+                else:
+                    _dag_wire(L)
+        lv = rng.choice(pulled_levels(c))
+        L = c["levels"][lv]
+        D = sorted(_closure(L, _head(c, lv)) or [])
+        if with_exe:
+            L["exe"] = [rng.choice(D)] if rng.random() < 0.85 or len(D) < 2 else sorted(rng.sample(D, 2))
+        if single and rng.random() < 0.7:
+            L0 = c["levels"][0]
+            D0 = sorted(_closure(L0, target) or [])
+            ups = [v for v in D0 if v != target] or D0
+            L0["touch"] = [rng.choice(ups)]
+        if not with_exe and not c["levels"][0].get("touch"):
+            continue
+        out.append(c)
+    return out
+
+
 def generate(ctx):
     rng = ctx.rng
     n_graphs = ctx.n(75, 600)
@@ -883,7 +966,8 @@ def generate(ctx):
         for target in range(n0):
             flags = [False, True] if (len(levels) > 1 or rng.random() < 0.3) else [rng.random() < 0.5]
             for parents in flags:
-                for c in variants(rng, levels, target, parents, thorough) + history_variants(rng, levels, target, parents):
+                for c in (variants(rng, levels, target, parents, thorough) + history_variants(rng, levels, target, parents)
+                          + warm_variants(rng, levels, target, parents)):
                     k = json.dumps(c, sort_keys=True)
                     if k not in seen:
                         seen.add(k)
@@ -902,7 +986,7 @@ def shrink_candidates(case):
     c = json.loads(json.dumps(case))
     levels = c["levels"]
     for lv, L in enumerate(levels):
-        for fld in ("sig", "data", "start", "exe", "bad", "failed", "foreign", "nocache"):
+        for fld in ("sig", "data", "start", "exe", "bad", "failed", "foreign", "nocache", "touch"):
             for i in range(len(L.get(fld, []))):
                 d = json.loads(json.dumps(c))
                 del d["levels"][lv][fld][i]
@@ -914,7 +998,7 @@ def shrink_candidates(case):
         # drop the last node of a level when nothing refers to it
         last = L["n"] - 1
         used = (any(last in (u, v) for u, v, _ in L["data"]) or any(last in (sg[0], sg[1]) for sg in L["sig"])
-                or last in L["start"] + L["exe"] + L["bad"] + L["failed"] + L.get("foreign", []) + L.get("nocache", [])
+                or last in L["start"] + L["exe"] + L["bad"] + L["failed"] + L.get("foreign", []) + L.get("nocache", []) + L.get("touch", [])
                 or L.get("comp") == last
                 or (lv == 0 and c["target"] == last))
         if not used and L["n"] > (1 if lv == 0 else 2):
